@@ -4,6 +4,7 @@ package main
 
 import (
 	"fmt"
+	"runtime"
 	"go/types"
 	"math/big"
 	"os"
@@ -59,6 +60,7 @@ type decision struct {
 	altOK  bool    // br: the second alternative is already known feasible
 	model  map[string]*big.Int // model of PC ∧ chosen side (valid while this is the last decision)
 	altModel map[string]*big.Int
+	valModels []map[string]*big.Int
 }
 
 type inputVar struct {
@@ -216,11 +218,14 @@ type Machine struct {
 	pcDoubt       bool
 	base          int
 	hidx          int
+	sharedCells   map[*ssa.Global]*Value
+	sharedPkgs    map[*ssa.Package]bool
 	lastInstr     ssa.Instruction
 	lastFrame     *frame
 	shared        *Shared
 	solverAcc     SolverStats
 	ufParent      map[*Term]*Term
+	lastQueryModel map[string]*big.Int
 	lastViolation *Violation
 	endModel      map[string]string
 	freshSeq, sigSeq, keySeq, hashSeq, fmtOpaque, jsonSeq int
@@ -346,7 +351,14 @@ func (m *Machine) assertPC(t *Term) {
 	if t.IsTrue() {
 		return
 	}
+	if m.replaying() {
+		m.addPC(t)
+		return
+	}
 	if m.model != nil && !m.evalBool(t) {
+		if os.Getenv("SYMGO_DBGEVAL") != "" {
+			fmt.Fprintf(os.Stderr, "EVALFALSE %s\n", dumpTerm(t, 3))
+		}
 		// re-establish a model of PC ∧ t (t's component only) before t joins the PC
 		r, model := m.query(t, true)
 		if r == Sat {
@@ -363,6 +375,10 @@ func (m *Machine) assertPC(t *Term) {
 	}
 	m.addPC(t)
 }
+
+// replaying: recorded decisions are still ahead, i.e. everything executed now was executed before
+// with identical outcomes (assumptions feasible, assertions decided); no solver work is repeated.
+func (m *Machine) replaying() bool { return m.dpos < len(m.stack) }
 
 func (m *Machine) addPC(t *Term) {
 	m.pc = append(m.pc, t)
@@ -435,6 +451,17 @@ func (m *Machine) ufUnion(a, b *Term) {
 func (m *Machine) query(extra *Term, wantModel bool) (SatResult, map[string]*big.Int) {
 	if extra != nil && extra.IsFalse() {
 		return Unsat, nil
+	}
+	if queryOrigins != nil {
+		pc := make([]uintptr, 3)
+		runtime.Callers(2, pc)
+		name := runtime.FuncForPC(pc[0]).Name()
+		if strings.HasSuffix(name, "assertPC") {
+			name += " < " + runtime.FuncForPC(pc[1]).Name() + " < " + runtime.FuncForPC(pc[2]).Name()
+		}
+		queryMu.Lock()
+		queryOrigins[name]++
+		queryMu.Unlock()
 	}
 	if m.model == nil || extra == nil {
 		r, model := m.solver.CheckSlice(m.pc, extra, wantModel)
@@ -561,6 +588,10 @@ func (m *Machine) branchAt(fr *frame, instr ssa.Instruction, cond *Term) bool {
 		}
 		m.res.Decisions++
 		m.setModel(models[c])
+		if os.Getenv("SYMGO_DBGEVAL") != "" && m.model != nil && !m.evalBool(sideCond(c)) {
+			_, inModel := m.model[cond.Name]
+			fmt.Fprintf(os.Stderr, "BRANCHMISMATCH c=%d feas=%v known-by-model=%v cond=%s inModel=%v val=%v\n", c, feas, models[c] != nil, dumpTerm(cond, 2), inModel, m.model[cond.Name])
+		}
 	}
 	m.dpos++
 	m.assertPC(sideCond(d.chosen))
@@ -575,7 +606,7 @@ func (m *Machine) copyStack() []decision {
 			job[i].vals = append([]int64{}, job[i].vals...)
 		}
 		job[i].forced = true
-		job[i].model, job[i].altModel = nil, nil
+		job[i].model, job[i].altModel, job[i].valModels = nil, nil, nil
 	}
 	return job
 }
@@ -609,6 +640,7 @@ func (m *Machine) concretize(fr *frame, t *Term, what string) int64 {
 	} else {
 		// enumerate all feasible values now (avoids one re-execution per value)
 		var vals []int64
+		var valModels []map[string]*big.Int
 		excl := m.pool.Bool(true)
 		for {
 			if len(vals) >= m.opts.ConcCap {
@@ -630,12 +662,17 @@ func (m *Machine) concretize(fr *frame, t *Term, what string) int64 {
 			}
 			v := canon(int64(val.Uint64()), t.W, true)
 			vals = append(vals, v)
+			if len(vals) == 1 && m.model != nil {
+				valModels = append(valModels, m.model)
+			} else {
+				valModels = append(valModels, m.lastQueryModel)
+			}
 			excl = m.pool.And(excl, m.pool.Not(m.pool.Eq(t, m.pool.ConstU(uint64(v), t.W))))
 		}
 		if len(vals) == 0 {
 			panic(pathEnd{kind: "infeasible"})
 		}
-		m.stack = append(m.stack, decision{kind: kind, chosen: 0, n: len(vals), tested: true, vals: vals})
+		m.stack = append(m.stack, decision{kind: kind, chosen: 0, n: len(vals), tested: true, vals: vals, valModels: valModels})
 		d = &m.stack[len(m.stack)-1]
 		m.res.Decisions++
 		if m.shared != nil {
@@ -644,14 +681,18 @@ func (m *Machine) concretize(fr *frame, t *Term, what string) int64 {
 					break
 				}
 				job := m.copyStack()
-				job[len(job)-1] = decision{kind: kind, chosen: alt, n: alt + 1, tested: true, forced: true, vals: append([]int64{}, vals...)}
+				job[len(job)-1] = decision{kind: kind, chosen: alt, n: alt + 1, tested: true, forced: true, vals: append([]int64{}, vals...), valModels: valModels}
 				m.shared.push(Job{h: m.hidx, stack: job})
 				d.n = alt
 			}
 		}
 	}
 	v := d.vals[d.chosen]
+	last := m.dpos == len(m.stack)-1
 	m.dpos++
+	if last && d.chosen < len(d.valModels) && d.valModels[d.chosen] != nil {
+		m.setModel(d.valModels[d.chosen])
+	}
 	m.assertPC(m.pool.Eq(t, m.pool.ConstU(uint64(v), t.W)))
 	return v
 }
@@ -668,11 +709,21 @@ func (m *Machine) checkValue(extra *Term, t *Term) (SatResult, *big.Int) {
 	if r != Sat {
 		return r, nil
 	}
+	m.lastQueryModel = model
 	val, ok := model[name]
 	if !ok {
 		return Unknown, nil
 	}
 	return Sat, val
+}
+
+var queryOrigins map[string]int
+var queryMu sync.Mutex
+
+func init() {
+	if os.Getenv("SYMGO_QORIGIN") != "" {
+		queryOrigins = map[string]int{}
+	}
 }
 
 // ---------------------------------------------------------------- assertions
@@ -728,6 +779,10 @@ func (m *Machine) checkAssert(fr *frame, cond Value, id, msg string, pos string)
 		}
 		m.violation(id, msg, pos, "assert", model)
 	case *Term:
+		if m.replaying() {
+			m.addPC(c) // decided (proved) when this prefix was first explored
+			return
+		}
 		if m.model != nil && !m.evalBool(c) {
 			// the cached model of the path condition already falsifies the assertion
 			m.violation(id, msg, pos, "assert", m.model)
@@ -820,8 +875,14 @@ func sortedKeys(mm map[string]int) []string {
 
 func (m *Machine) resetPath() {
 	m.pool = NewTermPool()
-	m.globals = map[*ssa.Global]*Value{}
+	m.globals = make(map[*ssa.Global]*Value, len(m.sharedCells)+64)
 	m.pkgInit = map[*ssa.Package]int{}
+	for g, c := range m.sharedCells {
+		m.globals[g] = c
+	}
+	for p := range m.sharedPkgs {
+		m.pkgInit[p] = 2
+	}
 	m.pc = m.pc[:0]
 	m.steps = 0
 	m.inputs = nil
@@ -1374,4 +1435,24 @@ func (m *Machine) accSolver(b SolverStats) {
 	if a.MaxQuerySec > s.MaxQuerySec {
 		s.MaxQuerySec = a.MaxQuerySec
 	}
+}
+
+func dumpTerm(t *Term, depth int) string {
+	if depth == 0 || t.Op == "const" || t.Op == "var" {
+		if t.Op == "const" {
+			return t.constStr()
+		}
+		if t.Op == "var" {
+			return t.Name
+		}
+		return "…"
+	}
+	s := "(" + t.Op
+	if t.Op == "extract" || t.Op == "zero_extend" || t.Op == "sign_extend" {
+		s += fmt.Sprintf("[%d,%d]", t.P1, t.P2)
+	}
+	for _, a := range t.Args {
+		s += " " + dumpTerm(a, depth-1)
+	}
+	return s + ")"
 }
